@@ -217,6 +217,8 @@ pub struct Ctx {
     pub bstep: Rc<Cell<usize>>,
     pub finds: Rc<RefCell<Vec<FindRec>>>,
     pub lifetime_obs: Rc<RefCell<Vec<(LifetimeId, usize)>>>,
+    /// This run exercises no cancellation (strict configuration).
+    pub no_cancel: Rc<Cell<bool>>,
 }
 
 pub fn call_result(id: u64) -> u64 {
